@@ -35,6 +35,7 @@ type World struct {
 	Funcs  []*ssa.Function // every function with a body in the library packages (incl. anonymous)
 	byName map[string]*ssa.Function
 	cg     *callgraph.Graph
+	Notes  []string // anchors located by role rather than by name (roles.go)
 	// statistics for the evidence file
 	NFiles, NFuncs, NBlocks, NInstrs int
 	fileOf                           map[*ast.File]*packages.Package
@@ -44,6 +45,39 @@ type World struct {
 // LoadWorld loads the library packages from repo. overlay (may be nil) replaces file
 // contents in memory (used by the sensitivity corpus; never touches the disk).
 func LoadWorld(repo string, overlay map[string][]byte, extraEnv []string) (*World, error) {
+	w, err := loadWorldRaw(repo, overlay, extraEnv)
+	if err != nil {
+		return nil, err
+	}
+	// rename tolerance (roles.go): unexported anchors missing under their canonical names are located by role
+	// and renamed back in an in-memory overlay; the rules then run on the canonically named program.
+	cur := overlay
+	for iter := 0; iter < 3; iter++ {
+		rc := discoverRoles(w)
+		if len(rc.renames) == 0 {
+			break
+		}
+		sort.Strings(rc.notes)
+		ov, err := rc.renameOverlay(cur)
+		if err != nil {
+			w.Notes = append(w.Notes, rc.notes...)
+			w.Notes = append(w.Notes, "canonical renaming not applied: "+err.Error())
+			break
+		}
+		w2, err := loadWorldRaw(repo, ov, extraEnv)
+		if err != nil {
+			w.Notes = append(w.Notes, rc.notes...)
+			w.Notes = append(w.Notes, "canonical renaming not applied: the renamed program does not load: "+err.Error())
+			break
+		}
+		w2.Notes = append(w.Notes, rc.notes...)
+		w, cur = w2, ov
+	}
+	// helper normalisation (inline.go): functions that are not in the reference table are inlined into their callers
+	return normaliseHelpers(w, repo, cur, extraEnv), nil
+}
+
+func loadWorldRaw(repo string, overlay map[string][]byte, extraEnv []string) (*World, error) {
 	env := append(os.Environ(), "GOFLAGS=-mod=mod", "GOPROXY=off", "GOSUMDB=off", "GOTOOLCHAIN=local", "GOWORK=off")
 	env = append(env, extraEnv...)
 	fset := token.NewFileSet()
